@@ -207,7 +207,7 @@ def gen_content(rng, size):
     return bytes(out[:size])
 
 
-def gen_population(rng, cfg, workdir, scale=1.0, big_dir=None):
+def gen_population(rng, cfg, workdir, scale=1.0, big_dir=None, late_dirs=0):
     """A debugfs -w script (list of command strings) that populates a fresh filesystem, plus the
     host files it reads.  Returns (commands, description)."""
     feats = set(cfg["features"])
@@ -304,6 +304,19 @@ def gen_population(rng, cfg, workdir, scale=1.0, big_dir=None):
                 cmds.append('mkdir "/bigdir/%s"' % nm)
             else:
                 cmds.append('write "%s" "/bigdir/%s"' % (empty, nm))
+    # directories (with a few children each) created last: with few inodes per group they land in high groups
+    for k in range(late_dirs):
+        d = "/late%d_%s" % (k, gen_name(rng, 10).replace('"', "x"))
+        cmds.append('mkdir "%s"' % d)
+        for j in range(rng.range(1, 6)):
+            nm = "%s/%s" % (d, gen_name(rng, 20).replace('"', "x") + str(j))
+            t = rng.below(4)
+            if t == 0:
+                cmds.append('mkdir "%s"' % nm)
+            elif t == 1:
+                cmds.append('symlink "%s" "%s"' % (nm, "x" * rng.range(1, 90)))
+            else:
+                cmds.append('write "%s" "%s"' % (host(gen_content(rng, rng.choice([0, 5, 40, 59, 200, 3000]))), nm))
     # resolve HARDLINK markers into link-count fixes
     out = []
     links = {}
@@ -362,7 +375,7 @@ def fsck_status_ok_for_repair(status):
 
 
 def build_world(rng, workdir, cfg=None, scale=1.0, big_dir=None, small=False, want=None, avoid=(), name="img",
-                rehash=None):
+                rehash=None, late_dirs=0):
     """mkfs + populate (+ optional e2fsck -fyD to index directories).  Returns dict or None when mke2fs
     rejected the configuration or population failed in a way that leaves nothing to test."""
     if cfg is None:
@@ -371,7 +384,7 @@ def build_world(rng, workdir, cfg=None, scale=1.0, big_dir=None, small=False, wa
     r = mkfs(cfg, img, workdir, rand_seed=rng.u64() >> 1)
     if r.status != 0 or r.san:
         return {"cfg": cfg, "img": img, "rejected": True, "mkfs": r}
-    cmds, desc = gen_population(rng, cfg, workdir, scale=scale, big_dir=big_dir)
+    cmds, desc = gen_population(rng, cfg, workdir, scale=scale, big_dir=big_dir, late_dirs=late_dirs)
     pr = debugfs_script(img, cmds, workdir, tag="pop", rand_seed=rng.u64() >> 1)
     if rehash is None:
         rehash = rng.chance(0.4)
